@@ -4,6 +4,8 @@
   results and retry timers.
 -/
 import Kvass.Pins.Disc
+import Kvass.Pins.Coord
+import Kvass.Pins.Proxy
 import Kvass.Model.Explore
 import Kvass.Spec.Explore
 import Kvass.Proofs.AL
